@@ -1,6 +1,8 @@
 """C02 -- detailed placement keeps the placement legal at every exposed state.
-Proof: coq/Properties_C02.v (legality of the rows is an invariant of every history of guarded
-swap/insert/unplace/place operations).  Tie: (a) harness/dplace.cpp: DetailedPlacement driven with random
+Proof: coq/Properties_C02.v (legality of the rows is an invariant of every HISTORY of guarded
+swap/insert/unplace/place operations and of shift passes satisfying shift_ok; the exposed circuit is Circuit.legal; the closed reordering
+pass separately; fromIspdCircuit + constructor + check() accept a legal, correctly oriented circuit of std_design.  NOT modelled:
+Circuit::placeDetailed / DetailedPlacer::run and the throws of the passes themselves -- validated per run).  Tie: (a) harness/dplace.cpp: DetailedPlacement driven with random
 and EXHAUSTIVELY enumerated operation sequences, the whole structure compared with Moves.v after every
 operation, DetailedPlacement::check() whenever every cell is placed; the same sequences replayed on the
 CONCRETE model MovesConcrete.v (proved to refine Moves.v): the private index arrays rowFirstCell_/
@@ -25,19 +27,9 @@ LEVEL = "proof"
 
 
 def run(ctx):
-    proof_ok, proof = common.proof_status(ctx, "C02")
-    # second property file of C02: RowNeighbourhood (coq/Properties_C02_neigh.v)
-    n_ok, n_proof = common.proof_status(ctx, "C02_neigh")
-    proof_ok = proof_ok and n_ok
-    for k in ("obligations", "discharged"):
-        proof[k] = proof.get(k, 0) + n_proof.get(k, 0)
-    for k in ("theorems", "axioms_used", "forbidden_vernacular_hits", "coq_files_in_scope", "problems"):
-        if n_proof.get(k):
-            proof[k] = sorted(set(list(proof.get(k, [])) + list(n_proof[k]))) if k != "theorems" else list(proof.get(k, [])) + list(n_proof[k])
-    if "coqchk" in n_proof:
-        proof["coqchk_neigh"] = n_proof["coqchk"]
-    if not n_ok and "coq_log_tail" in n_proof:
-        proof["coq_log_tail_neigh"] = n_proof["coq_log_tail"]
+    # further property files of C02: RowNeighbourhood (coq/Properties_C02_neigh.v), review gaps (coq/Properties_gaps1.v: legalize ->
+    # from_circuit chain, interleaved histories)
+    proof_ok, proof = common.proof_status_all(ctx, "C02", ["C02_neigh", "gaps1"])
     s = ctx.seed
     harness = common.build_harness("dplace")
     driver = common.build_driver()
@@ -176,7 +168,9 @@ def run(ctx):
     return ctx.finish(LEVEL, cov, ["legality after the shift pass: proved from dual feasibility of the solver's potentials, which is checked per call (%d calls this run) together with the guard shift_ok on the positions written"
                                    % lp["records"] if lp["records"] else
                                    "legality after the shift pass is validated with the proved guard shift_ok only: /repo does not carry the hook coloquinte_verif_shift_hook, dual feasibility of the solver's potentials was not checked",
-                                   "model tied to the code by exact comparison on the cases of this run"])
+                                   "model tied to the code by exact comparison on the cases of this run",
+                                   "the theorems are about every history of row-model operations (a refused operation is a no-op of the model), not about DetailedPlacer::run; 'never fails on a circuit legalization accepts' is proved for fromIspdCircuit + constructor + check() under std_design / legal / orient_ok of the input, the passes' throws are validated absent per run; no theorem covers a history interleaving swap / shift with reorder passes",
+                                   "the EX export tie has no shift step; when legalization fails inside placeDetailed the end state is not legalb-checked; Properties_C02_neigh.v is about the lists RowNeighbourhood returns, their use by runSwaps is not modelled"])
 
 
 def replay(ctx, path):
